@@ -1286,7 +1286,9 @@ class LoadFunc(_CallOrLoad, DataflowOp):
             is provided.
     """
 
-    num_out: int = field(default=1, repr=False)
+    @property
+    def num_out(self) -> int:
+        return 1
 
     def _to_serial(self, parent: Node) -> sops.LoadFunction:
         return sops.LoadFunction(
